@@ -723,7 +723,7 @@ Section Main.
     - (* -PLUS *)
       destruct (Hready eq_refl) as (Hsec & Ht & Hdt & Htl & Hdl). subst secured.
       destruct cbtype as [t|]; [|contradiction]. destruct cbdata as [d|]; [|contradiction]. cbn [opt_list] in *.
-      eexists. split; [apply init_plus; assumption|].
+      eexists. split; [exact (init_plus t d jid rng node Hnode Htl Hdl)|].
       cbv zeta. unfold scram_first_bare. cbn [si_message si_first_bare si_channel_binding].
       fold cn.
       assert (Efb : skipn (Z.to_nat (zlen t + 4)) (client_first_of true true t node cn) = first_bare_of node cn).
@@ -734,23 +734,108 @@ Section Main.
       assert (Lcb : zlen (encode (gs2_header true true t ++ d)) <= 80).
       { rewrite encode_length. unfold gs2_header. zl.
         assert ((2 + zlen t + 2 + zlen d + 2) / 3 <= 20) by (apply Z.div_le_upper_bound; lia). lia. }
-      rewrite (sasl_scram_wf alg H HM lim hash_ok hmac_ok H_len HM_len ds_range lim_big')
+      rewrite (sasl_scram_wf alg H HM lim hash_ok hmac_ok H_len HM_len HM_bytes ds_range lim_big')
         by (try assumption; try (apply cfree_app; assumption); zl; lia).
       destruct (2 ^ 32 <=? dec_value idigits) eqn:Eb; [apply Z.leb_le in Eb; exact Eb|].
       eexists. split; [reflexivity|].
-      apply (verify_ok alg H HM H_len HM_len HM_bytes ds_range true true t d node cn snonce salt idigits pw); assumption.
+      apply (verify_ok alg H HM lim hash_ok hmac_ok H_len HM_len HM_bytes ds_range true true t d node cn snonce salt idigits pw); assumption.
     - (* without channel binding *)
       eexists. split; [apply init_noplus; exact Hnode|].
       cbv zeta. unfold scram_first_bare. cbn [si_message si_first_bare si_channel_binding]. fold cn.
       assert (Efb : skipn (Z.to_nat 3) (client_first_of false secured [] node cn) = first_bare_of node cn) by reflexivity.
       rewrite Efb.
       assert (Lcb : zlen (encode (gs2_header false secured [])) = 4) by reflexivity.
-      rewrite (sasl_scram_wf alg H HM lim hash_ok hmac_ok H_len HM_len ds_range lim_big')
+      rewrite (sasl_scram_wf alg H HM lim hash_ok hmac_ok H_len HM_len HM_bytes ds_range lim_big')
         by (try assumption; try (apply cfree_app; assumption); zl; lia).
       destruct (2 ^ 32 <=? dec_value idigits) eqn:Eb; [apply Z.leb_le in Eb; exact Eb|].
       eexists. split; [reflexivity|].
-      pose proof (verify_ok alg H HM H_len HM_len HM_bytes ds_range false secured (opt_list cbtype) (opt_list cbdata) node cn snonce salt idigits pw
+      pose proof (verify_ok alg H HM lim hash_ok hmac_ok H_len HM_len HM_bytes ds_range false secured (opt_list cbtype) (opt_list cbdata) node cn snonce salt idigits pw
                     Hcbf Hcbb Hcdb Hcn Hsn Hsnne Hsb Hsne Hd Hdne) as V.
       cbv zeta in V. rewrite app_nil_r in V. exact V.
   Qed.
 End Main.
+
+(* ------------------------------------------------------------------------------------------ *)
+(* instances: the three digests of src/scram.c (C17: the models compute the standard digests
+   and RFC 2104 HMAC)                                                                           *)
+Require Import LV.Spec.HashSpec LV.Proofs.HashProofs.
+
+Lemma be_bytes_bytes : forall n x, bytes (be_bytes n x).
+Proof.
+  induction n as [|n IH]; intros x; cbn [be_bytes]; constructor; [|apply IH].
+  unfold is_byte. apply Z.mod_pos_bound. lia.
+Qed.
+Lemma flat_be_bytes : forall n ws, bytes (flat_map (be_bytes n) ws).
+Proof. intros n ws. induction ws as [|w ws IH]; cbn [flat_map]; [constructor|]. apply Forall_app. split; [apply be_bytes_bytes|exact IH]. Qed.
+Lemma sha1_spec_bytes m : bytes (sha1_spec m).
+Proof. apply flat_be_bytes. Qed.
+Lemma sha256_spec_bytes m : bytes (sha256_spec m).
+Proof. apply flat_be_bytes. Qed.
+Lemma sha512_spec_bytes m : bytes (sha512_spec m).
+Proof. apply flat_be_bytes. Qed.
+
+Definition LIM : Z := 2 ^ 60.
+
+Definition HMAC_SHA1 := hmac_spec sha1_spec 64.
+Definition HMAC_SHA256 := hmac_spec sha256_spec 64.
+Definition HMAC_SHA512 := hmac_spec sha512_spec 128.
+
+Lemma scram_sha1_lemma : forall plus secured cbtype cbdata jid rng node password salt idigits snonce,
+  spec_node jid = Some node ->
+  plus_ready plus secured cbtype cbdata ->
+  cfree (opt_list cbtype) -> bytes (opt_list cbtype) -> bytes (opt_list cbdata) ->
+  bytes salt -> salt <> [] -> zlen salt <= 124 ->
+  all_digits idigits = true -> idigits <> [] -> 1 <= dec_value idigits ->
+  cfree snonce -> snonce <> [] ->
+  zlen password + 3 * zlen jid + 2 * zlen snonce + zlen idigits + 2048 <= LIM ->
+  scram_outcome alg_sha1 sha1_spec HMAC_SHA1 plus secured cbtype cbdata jid rng node password salt idigits snonce.
+Proof.
+  apply (scram_generic alg_sha1 sha1_spec HMAC_SHA1 LIM).
+  - intros d _. apply sha1_oneshot_lemma.
+  - intros k t _. apply hmac_sha1_lemma.
+  - apply sha1_spec_len.
+  - intros k t. apply sha1_spec_len.
+  - intros k t. apply sha1_spec_bytes.
+  - split; vm_compute; [reflexivity|discriminate].
+  - unfold LIM. lia.
+Qed.
+
+Lemma scram_sha256_lemma : forall plus secured cbtype cbdata jid rng node password salt idigits snonce,
+  spec_node jid = Some node ->
+  plus_ready plus secured cbtype cbdata ->
+  cfree (opt_list cbtype) -> bytes (opt_list cbtype) -> bytes (opt_list cbdata) ->
+  bytes salt -> salt <> [] -> zlen salt <= 124 ->
+  all_digits idigits = true -> idigits <> [] -> 1 <= dec_value idigits ->
+  cfree snonce -> snonce <> [] ->
+  zlen password + 3 * zlen jid + 2 * zlen snonce + zlen idigits + 2048 <= LIM ->
+  scram_outcome alg_sha256 sha256_spec HMAC_SHA256 plus secured cbtype cbdata jid rng node password salt idigits snonce.
+Proof.
+  apply (scram_generic alg_sha256 sha256_spec HMAC_SHA256 LIM).
+  - intros d Hd. apply sha256_oneshot_lemma. unfold LIM in Hd. lia.
+  - intros k t Hs. apply hmac_sha256_lemma. unfold LIM in Hs. lia.
+  - apply sha256_spec_len.
+  - intros k t. apply sha256_spec_len.
+  - intros k t. apply sha256_spec_bytes.
+  - split; vm_compute; [reflexivity|discriminate].
+  - unfold LIM. lia.
+Qed.
+
+Lemma scram_sha512_lemma : forall plus secured cbtype cbdata jid rng node password salt idigits snonce,
+  spec_node jid = Some node ->
+  plus_ready plus secured cbtype cbdata ->
+  cfree (opt_list cbtype) -> bytes (opt_list cbtype) -> bytes (opt_list cbdata) ->
+  bytes salt -> salt <> [] -> zlen salt <= 124 ->
+  all_digits idigits = true -> idigits <> [] -> 1 <= dec_value idigits ->
+  cfree snonce -> snonce <> [] ->
+  zlen password + 3 * zlen jid + 2 * zlen snonce + zlen idigits + 2048 <= LIM ->
+  scram_outcome alg_sha512 sha512_spec HMAC_SHA512 plus secured cbtype cbdata jid rng node password salt idigits snonce.
+Proof.
+  apply (scram_generic alg_sha512 sha512_spec HMAC_SHA512 LIM).
+  - intros d Hd. apply sha512_oneshot_lemma. unfold LIM in Hd. lia.
+  - intros k t Hs. apply hmac_sha512_lemma. unfold LIM in Hs. lia.
+  - apply sha512_spec_len.
+  - intros k t. apply sha512_spec_len.
+  - intros k t. apply sha512_spec_bytes.
+  - split; vm_compute; [reflexivity|discriminate].
+  - unfold LIM. lia.
+Qed.
